@@ -33,7 +33,7 @@ def main(args: Any) -> int:
         rep.kernel(m.__name__, symx.source_hash(m.__file__))
     n = 120 if args.tier == "quick" else 1500
     rep.bounds += [
-        f"{n} generated functions (seed VERIF_SEED) with <= 3 int parameters, nesting depth <= 3, no loops, no calls except runtime helpers with a contract; plus the one-operation corpus; all argument values",
+        f"{n} generated functions (seed VERIF_SEED) with <= 3 int parameters, nesting depth <= 3, no calls except runtime helpers with a contract; plus the one-operation corpus; all argument values",
         "programs whose IR leaves the modelled op subset are skipped and counted (programs_skipped_unsupported_ir)",
     ]
     rep.assumptions += [
@@ -43,6 +43,9 @@ def main(args: Any) -> int:
     rep.outside += ["objects, strings, containers, classes, generators, exception messages, the three build modes, optimisation levels"]
     seed = rep.seed
     c15_ir.run_corpus(rep, tv.gen_programs(seed, n), "generated int programs (mypyc IR vs Python semantics)", "mypyc IR")
+    nl = 60 if args.tier == "quick" else 600
+    rep.bounds.append(f"{nl} generated functions with loops: for over range(constant <= 3) or range(x % 2|3), counted while loops, break / continue; symbolic trip counts explored up to 8 iterations")
+    c15_ir.run_corpus(rep, tv.gen_programs(seed, nl, loops=True), "generated int programs with loops", "mypyc IR")
     c15_ir.run_corpus(rep, tv.one_op_programs(), "one-operation functions (shared with C15/K2)", "mypyc IR")
     return rep.finish(level="translation_validation")
 
